@@ -1,8 +1,10 @@
 import QProofs.GraphSkeleton
+import QProofs.SkeletonProof
+import QProofs.GenInstsOK
 /-!
 # C02 — quantization preserves the graph skeleton and the model I/O contract
 -/
-open Graph Perform
+open Graph Perform Skeleton
 
 namespace C02
 
@@ -14,5 +16,28 @@ theorem rewire_only_target (ops ops' : List Op) (cs : List Int) (t n : Int) (hn 
     ops'.length = ops.length ∧
       ∀ (i : Nat) o, ops[i]? = some o → ∃ o', ops'[i]? = some o' ∧ GraphSkeleton.RewiredOp t n o o' :=
   GraphSkeleton.rewire_spec ops ops' cs t n hn h
+
+/-- **erasing the inserted QUANTIZE/DEQUANTIZE operators of the performer's result gives back the
+    input graph** (same ops, order, operands, results; no tensor renamed/reshaped/dropped; inputs
+    unchanged; graph outputs and signature outputs denote the same original tensors; signatures
+    keep key and argument names) -/
+theorem performer_skeleton (pt : PTable) (m m' : Model) (tis : List TInsts)
+    (hwf : WF.modelOK m = true) (htag : origTagged m = true)
+    (hok : ∀ ti ∈ tis, GraphInv.TInstsOK pt m ti)
+    (h : transformGraph pt m tis = .ok m') : sameModelSkeleton m m' = true :=
+  SkeletonProof.transformGraph_skeleton pt m m' tis hwf htag hok h
+
+/-- … and so does the whole graph stage, for requests of the registered algorithms' shape -/
+theorem modify_skeleton (pt : PTable) (m m' : Model) (reqs : List TReq)
+    (hwf : WF.modelOK m = true) (htag : origTagged m = true) (hnames : GenInstsOK.namesUnique m)
+    (hreq : ∀ r ∈ reqs, GenInstsOK.ReqOK pt m r)
+    (h : Perform.modify pt m reqs = .ok m') : sameModelSkeleton m m' = true := by
+  unfold Perform.modify at h
+  simp only [bind, Except.bind] at h
+  cases hg : InstGen.genInsts m reqs with
+  | error e => simp [hg] at h
+  | ok tis =>
+    simp only [hg] at h
+    exact performer_skeleton pt m m' tis hwf htag (GenInstsOK.genInsts_ok pt m reqs tis hwf hnames hreq hg) h
 
 end C02
